@@ -6,6 +6,7 @@ import (
 	"bytes"
 	"errors"
 	"fmt"
+	"os"
 	"strings"
 	"sync/atomic"
 	"testing/synctest"
@@ -13,6 +14,7 @@ import (
 
 	"github.com/cbeuw/Cloak/internal/common"
 	mux "github.com/cbeuw/Cloak/internal/multiplex"
+	log "github.com/sirupsen/logrus"
 )
 
 func init() { scenarios["C12"] = c12 }
@@ -50,6 +52,17 @@ func (ps *pairScript) viol(sig string, detail map[string]any) {
 
 // monitors evaluated at every quiescent point — the clauses of C12, literally
 func (ps *pairScript) monitors(after string) {
+	// at a quiescent moment (every goroutine of the bubble durably blocked) nobody may be holding the stream-table
+	// lock: whoever holds it is parked inside the critical section, and every other stream, Accept, OpenStream and the
+	// teardown of the session wait behind it
+	for i := 0; i < 2; i++ {
+		if !mux.VerifStreamsMFree(ps.rg.S[i].sesh) {
+			ps.viol("C12 goroutine-parked-while-holding-the-stream-table-lock", map[string]any{"side": sname(i), "after": after,
+				"accept_queue_len": ps.acceptQueueLen(i)})
+			ps.c.o.close()
+			os.Exit(3) // nothing more can be observed on this session without blocking the harness itself
+		}
+	}
 	for i := 0; i < 2; i++ {
 		sesh := ps.rg.S[i].sesh
 		open := mux.VerifOpenStreams(sesh)
@@ -114,6 +127,8 @@ func (ps *pairScript) settle(after string) {
 	ps.collect()
 	ps.monitors(after)
 }
+
+func (ps *pairScript) acceptQueueLen(i int) int { return mux.VerifAcceptQueueLen(ps.rg.S[i].sesh) }
 
 func (ps *pairScript) open(i int) {
 	sd := ps.rg.S[i]
@@ -184,6 +199,9 @@ func (ps *pairScript) deliver(from, k int) bool {
 	}
 	sid, seq, cl, pl, err := mux.VerifDecode(ps.rg.method, ps.rg.key, rec)
 	synctest.Wait()
+	if !mux.VerifStreamsMFree(ps.rg.S[to].sesh) {
+		ps.monitors("deliver") // reports and stops
+	}
 	if err != nil {
 		ps.viol("C12 undecodable-record-on-the-wire", map[string]any{"err": err.Error()})
 		return true
@@ -609,6 +627,109 @@ func (ps *pairScript) openRace() {
 	}
 }
 
+// more peer-opened streams than the accept backlog holds, nobody accepting: the receive loop must not park inside the
+// stream-table lock; streams beyond the backlog are refused, everything else keeps working, and the session tears down
+func c12backlog(c *ctx) {
+	synctest.Run(func() {
+		ps := newPairScript(c, 0, 2, false, time.Hour, "accept backlog overflow")
+		n := 1024 + 8
+		for k := 0; k < n; k++ {
+			st, err := ps.rg.S[0].sesh.OpenStream()
+			if err != nil {
+				return
+			}
+			id := mux.VerifStreamID(st)
+			ps.rg.S[0].streams[id] = st
+			ps.hadStrm[0] = true
+			ps.c.o.T("ss.open side=A", fmt.Sprintf("ok id=%d | %s", id, ps.state(0)))
+			ps.write(0, id, []byte{byte(k)})
+		}
+		for ps.deliverSome(1<<30) > 0 {
+		}
+		// B accepts a few, data still flows on an accepted stream, then everything is torn down
+		for k := 0; k < 5; k++ {
+			ps.accept(1, false)
+		}
+		ps.write(0, 1, []byte("after the overflow"))
+		ps.deliverSome(1 << 30)
+		ps.read(1, 1, 100, false)
+		ps.read(1, 1, 100, false)
+		ps.closeSession(1)
+		ps.finish()
+	})
+	c.o.case_("accept backlog overflow", true)
+}
+
+type c12ParkHook struct {
+	armed   int32
+	parked  chan struct{}
+	release chan struct{}
+}
+
+func (h *c12ParkHook) Levels() []log.Level { return []log.Level{log.DebugLevel} }
+func (h *c12ParkHook) Fire(e *log.Entry) error {
+	if e.Message == "terminal message set to timeout" && atomic.CompareAndSwapInt32(&h.armed, 1, 0) {
+		close(h.parked)
+		<-h.release
+	}
+	return nil
+}
+
+// the inactivity check tests the stream count and only then closes: a stream opened in between (here: while the timer
+// goroutine is parked in the log call between the two) is closed with the session
+func c12timerRace(c *ctx, k int) {
+	h := &c12ParkHook{}
+	oldLevel := log.GetLevel()
+	oldHooks := log.StandardLogger().ReplaceHooks(log.LevelHooks{})
+	log.SetLevel(log.DebugLevel)
+	log.AddHook(h)
+	defer func() {
+		log.SetLevel(oldLevel)
+		log.StandardLogger().ReplaceHooks(oldHooks)
+	}()
+	synctest.Run(func() {
+		// the channels must belong to the bubble, otherwise parking on them is not "durably blocked" for synctest
+		h.parked, h.release = make(chan struct{}), make(chan struct{})
+		atomic.StoreInt32(&h.armed, 1)
+		ps := newPairScript(c, byte(k%4), 1+k%2, false, 10*time.Second, "inactivity check vs OpenStream")
+		time.Sleep(10 * time.Second) // both sides' first inactivity check fires; A's timer goroutine parks after its test
+		synctest.Wait()
+		select {
+		case <-h.parked:
+		default:
+			close(h.release)
+			ps.finish()
+			return
+		}
+		// which side is parked? the one that is not closed yet although its check has passed
+		side := 0
+		if ps.rg.S[0].sesh.IsClosed() {
+			side = 1
+		}
+		var st *mux.Stream
+		var err error
+		if side == 0 {
+			st, err = ps.rg.S[0].sesh.OpenStream()
+		}
+		opened := side == 0 && err == nil
+		if opened {
+			ps.rg.S[0].streams[mux.VerifStreamID(st)] = st
+			st.Write([]byte("data on a stream opened after the inactivity check looked"))
+		}
+		openBefore := mux.VerifOpenStreams(ps.rg.S[side].sesh)
+		close(h.release)
+		synctest.Wait()
+		sesh := ps.rg.S[side].sesh
+		c.o.N(fmt.Sprintf("timer race: side %s parked after its test; stream opened=%v; afterwards closed=%v terminal=%q", sname(side), opened, sesh.IsClosed(), sesh.TerminalMsg()))
+		if opened && openBefore > 0 && sesh.IsClosed() && sesh.TerminalMsg() == "timeout" {
+			ps.viol("C12 inactivity-timer-race stream-opened-between-test-and-close", map[string]any{"side": sname(side), "open_streams_when_the_close_took_effect": openBefore,
+				"how": "OpenStream succeeded (and data was written) after checkTimeout had read streamCount()==0 and before its Close()"})
+		}
+		ps.finish()
+	})
+	c.o.case_(fmt.Sprint("timer race ", k), true)
+}
+
 func c12(c *ctx) {
 	r := c.r
 	nScripts := 150
@@ -688,6 +809,10 @@ func c12(c *ctx) {
 		c.o.case_(fmt.Sprint("openRace", k), true)
 	}
 	c12tls(c)
+	c12backlog(c)
+	for k := 0; k < 2; k++ {
+		c12timerRace(c, k)
+	}
 	for k, v := range kinds {
 		c.o.stat("op_"+k, v)
 	}
